@@ -5,6 +5,8 @@ CONSTANTS
   Byz = {4}
   MaxByz = 2
   MaxDup = 1
+  MaxLen = 8
+  Focus = "shares"
   AsCoded = TRUE
 INVARIANTS OnlyValidShares
 CHECK_DEADLOCK FALSE
